@@ -62,7 +62,7 @@ func (World) Assumptions(prop string) []string {
 	case "C13":
 		return append(common,
 			"compared: GetAll{Eligible,Waiting,Leaving}ValidatorsPublicKeys(epoch) of every live node, order included; recorded UpdateNodeLists results grouped by identical arguments; N direct shuffler calls with maps rebuilt in other insertion orders",
-			"each node receives the peer miniblocks and their entries in its own order (knob permute_body) and builds its genesis maps in its own shard order")
+			"each node receives the peer miniblocks (one per shard) in its own order (knob permute_body), so shards enter its input maps in another order, and builds its genesis maps in its own shard order; the order of entries inside a miniblock is the same for all nodes (list order is input, not map construction: the low-rating leaving list of a shard follows the entry order of the body)")
 	case "C14":
 		return append(common,
 			"minimum = NodesShard / NodesMeta of the shuffler; 'before' = Eligible+Waiting of the UpdateNodeLists arguments; fix active = call epoch >= WaitingListFixEnableEpoch (same value given to shuffler and coordinator)")
